@@ -324,6 +324,10 @@ func (v *VLA) Unmarshal(payload []byte) (int, error) {
 		payload: payload,
 	}
 
+	// start from a clean value when the receiver is reused
+	v.ActiveSpatialLayer = nil
+	v.HasResolutionAndFramerate = false
+
 	err := v.unmarshalSpatialLayers(ctx)
 	if err != nil {
 		return ctx.offset, err
